@@ -18,6 +18,17 @@ SRC = os.environ.get("PYTESTARCH_SRC", "/repo/src")
 
 EXIT_OK, EXIT_VIOLATION, EXIT_HARNESS = 0, 1, 3
 
+T_START = time.time()
+# seconds after process start by which everything (search, confirmation, minimisation, evidence)
+# should be over: below the timeouts registered in MANIFEST.json, so that a run that found
+# something is never killed before it has said so
+DEADLINE = {"quick": {"C13": 800, "C15": 800, "C16": 800},
+            "thorough": {"C13": 3250, "C15": 3250, "C16": 2850}}
+
+
+def time_left(prop, tier):
+    return float(os.environ.get("VERIF_DEADLINE_S", DEADLINE[tier][prop])) - (time.time() - T_START)
+
 
 class HarnessError(Exception):
     pass
@@ -424,6 +435,8 @@ def minimise(plan, hashseeds, sig, pool, budget_s=120):
     tests = [0]
 
     def fails(p):
+        if time.time() - t0 > budget_s:
+            return False  # out of time: keep what we have
         tests[0] += 1
         try:
             sigs, _ = signatures_of(p, hashseeds, pool)
@@ -436,7 +449,7 @@ def minimise(plan, hashseeds, sig, pool, budget_s=120):
     if not fails(cur):
         cur = copy.deepcopy(plan)
     # 1. hash seeds: keep as few as possible (one suffices for in-process invariants)
-    if len(hashseeds) > 1 and "/I4/" not in sig:
+    if len(hashseeds) > 1 and "/I4/" not in sig and budget_s > 0:
         for h in hashseeds:
             sigs, _ = signatures_of(cur, [h], pool)
             if sig in sigs:
@@ -977,25 +990,38 @@ def check(prop, tier, seed):
                     if sig in open_sigs:
                         known_hit.append((sig, out["sig_counts"].get(key, 0)))
                         continue
-                    small, tests = minimise_history_violation(hplans, where["hs"], sig)
-                    got = history_violations(small, where["hs"])
-                    if sig not in got:
-                        small, got = hplans, history_violations(hplans, where["hs"])
-                    det = dict(got[sig])
-                    det["sessions_before"] = len(small) - 1
+                    got0 = history_violations(hplans, where["hs"])
+                    det = dict(got0[sig])
+                    det["sessions_before"] = len(hplans) - 1
                     path = write_replay(prop, seed, cand.index, None, [where["hs"]], sig, det,
-                                        history=small, expect="violation")
+                                        history=hplans, expect="violation")
+                    print(f"VIOLATION property={prop} replay={path}", flush=True)
+                    small, tests = minimise_history_violation(
+                        hplans, where["hs"], sig, budget_s=max(0.0, min(180.0, time_left(prop, tier) - 60)))
+                    if len(small) < len(hplans):
+                        got = history_violations(small, where["hs"])
+                        if sig in got:
+                            det = dict(got[sig])
+                            det["sessions_before"] = len(small) - 1
+                            path = write_replay(prop, seed, cand.index, None, [where["hs"]], sig, det,
+                                                history=small, expect="violation")
                     reported.append((sig, path, tests))
                     continue
             if sig in open_sigs:
                 known_hit.append((sig, out["sig_counts"].get(key, 0)))
                 continue
-            small, hs_small, tests = minimise(plan, hashseeds, sig, pool)
+            # confirmed in fresh interpreters: say so at once (the replay file is rewritten in
+            # place with the minimised plan below; a kill during minimisation loses nothing)
+            path = write_replay(prop, seed, cand.index, plan, hashseeds, sig, sigs[sig])
+            print(f"VIOLATION property={prop} replay={path}", flush=True)
+            left = time_left(prop, tier)
+            budget = max(0.0, min(120.0, (left - 30) / max(1, MAX_REPORTS - len(reported))))
+            small, hs_small, tests = minimise(plan, hashseeds, sig, pool, budget_s=budget)
             pool.close()
-            sigs2, _ = signatures_of(small, hs_small, pool, fresh=True)
-            if sig not in sigs2:
-                small, hs_small, sigs2 = plan, hashseeds, sigs
-            path = write_replay(prop, seed, cand.index, small, hs_small, sig, sigs2[sig])
+            if tests > 1:
+                sigs2, _ = signatures_of(small, hs_small, pool, fresh=True)
+                if sig in sigs2:
+                    path = write_replay(prop, seed, cand.index, small, hs_small, sig, sigs2[sig])
             reported.append((sig, path, tests))
         done_sigs = set()
         for plans, hs, div in history_found:
@@ -1006,14 +1032,21 @@ def check(prop, tier, seed):
             if sig in open_sigs:
                 known_hit.append((sig, 1))
                 continue
-            small, tests = minimise_history(plans, hs, sig, prop)
-            div2 = history_divergence(small, hs)
-            if div2 is None or i5_sig(prop, div2) != sig:
-                small, div2 = plans, div
-            div2["hash_seed"] = hs
-            div2["sessions_before"] = len(small) - 1
-            path = write_replay(prop, seed, small[-1].get("index"), None, [hs], sig, div2,
-                                history=small)
+            div0 = dict(div)
+            div0["hash_seed"] = hs
+            div0["sessions_before"] = len(plans) - 1
+            path = write_replay(prop, seed, plans[-1].get("index"), None, [hs], sig, div0,
+                                history=plans)
+            print(f"VIOLATION property={prop} replay={path}", flush=True)
+            small, tests = minimise_history(plans, hs, sig, prop,
+                                            budget_s=max(0.0, min(180.0, time_left(prop, tier) - 60)))
+            if len(small) < len(plans):
+                div2 = history_divergence(small, hs)
+                if div2 is not None and i5_sig(prop, div2) == sig:
+                    div2["hash_seed"] = hs
+                    div2["sessions_before"] = len(small) - 1
+                    path = write_replay(prop, seed, small[-1].get("index"), None, [hs], sig, div2,
+                                        history=small)
             reported.append((sig, path, tests))
         samples = evidence_mod.collect_samples(prop, seed, pool)
     finally:
